@@ -376,7 +376,21 @@ fn one_folded(i: u64, url_lists: &[Vec<(Vec<u8>, Vec<u8>)>], body_lists: &[Vec<(
     plan.url_params = ul.clone();
     plan.body = refmodel::sign::spell_query(bl).into_bytes();
     plan.body_params = Some(bl.clone());
-    plan.headers.push(("Content-Type".into(), b"application/x-www-form-urlencoded".to_vec()));
+    // the plain path carries the form in three encodings: UTF-8, and UTF-16 in either byte order under the matching
+    // charset label (the decoded text is what is folded; the raw body is twice as long as that text)
+    let enc = if pathk == 0 { (i / 24) % 3 } else { 0 };
+    let ctype: &[u8] = match enc {
+        1 => {
+            plan.body = String::from_utf8_lossy(&plan.body).encode_utf16().flat_map(|u| u.to_le_bytes()).collect();
+            b"application/x-www-form-urlencoded; charset=utf-16le"
+        }
+        2 => {
+            plan.body = String::from_utf8_lossy(&plan.body).encode_utf16().flat_map(|u| u.to_be_bytes()).collect();
+            b"application/x-www-form-urlencoded; charset=utf-16be"
+        }
+        _ => b"application/x-www-form-urlencoded",
+    };
+    plan.headers.push(("Content-Type".into(), ctype.to_vec()));
     plan.signed.push("content-type".into());
     // entity headers describing the form as submitted (accurate ones): they come back as they were sent, whether
     // signed or not, although the body that comes back is empty
@@ -475,7 +489,7 @@ pub fn run(ctx: &Ctx) -> Report {
     Report {
         stats: st,
         rule: format!(
-            "accepted (reference-signed) requests: 11 methods (incl. extension methods) x 5 HTTP versions x 4 header multisets (repeated names, non-UTF-8 and empty values, mixed-case names), every second request also carrying a second Authorization and X-Amz-Security-Token header after the ones that count, half of them a session token x body types (), Vec<u8>, Bytes x {} body lengths (11 .. 65537 bytes, around 256) x 4 request-target / host forms (origin, origin with escapes / '+' / '&&', absolute-form, absolute-form without a Host header and ':authority' signed) and three targets without a path (authority-form host:port, absolute-form with no path, asterisk-form; these x methods x versions x body types x options only) x carrier x 4 principals x 3 session data x {{default, S3, fold}}, the whole product once per logger configuration {:?} (no logger output, or a logger that formats every record at that maximum level{}); returned method, version, URI, header names/values/multiplicity/per-name order, body bytes and principal/session data compared with what was submitted / supplied; plus {} folded form requests (URL x body parameter lists x 6 paths — plain, escaped, and three with empty / dot segments, one beginning with '//' — x S3 x carrier; the returned path must have the normal form of the submitted one under the server's mode; each with an accurate Content-Length, Content-MD5, Content-Encoding and X-Amz-Content-Sha256, signed for every second one) per logger configuration: body empty and returned query multiset = URL ⊎ body. states = distinct (principal, session size) returned; Extensions marker recorded, not judged",
+            "accepted (reference-signed) requests: 11 methods (incl. extension methods) x 5 HTTP versions x 4 header multisets (repeated names, non-UTF-8 and empty values, mixed-case names), every second request also carrying a second Authorization and X-Amz-Security-Token header after the ones that count, half of them a session token x body types (), Vec<u8>, Bytes x {} body lengths (11 .. 65537 bytes, around 256) x 4 request-target / host forms (origin, origin with escapes / '+' / '&&', absolute-form, absolute-form without a Host header and ':authority' signed) and three targets without a path (authority-form host:port, absolute-form with no path, asterisk-form; these x methods x versions x body types x options only) x carrier x 4 principals x 3 session data x {{default, S3, fold}}, the whole product once per logger configuration {:?} (no logger output, or a logger that formats every record at that maximum level{}); returned method, version, URI, header names/values/multiplicity/per-name order, body bytes and principal/session data compared with what was submitted / supplied; plus {} folded form requests (URL x body parameter lists x 6 paths — plain, escaped, and three with empty / dot segments, one beginning with '//' — x S3 x carrier, the plain path with the form in UTF-8, UTF-16LE and UTF-16BE; the returned path must have the normal form of the submitted one under the server's mode; each with an accurate Content-Length, Content-MD5, Content-Encoding and X-Amz-Content-Sha256, signed for every second one) per logger configuration: body empty and returned query multiset = URL ⊎ body. states = distinct (principal, session size) returned; Extensions marker recorded, not judged",
             BODY_SIZES.len(), levels, if thorough { "" } else { "; quick tier: each level covers a different third of the (method, version, header set) combinations, all other dimensions in full" }, n_f
         ),
         bounds: json!({"combinations_per_level": total, "levels": levels.len(), "folded": n_f}),
